@@ -366,41 +366,45 @@ Definition finalize_or_free (pos f : Z) (s : rst) : rst :=
   | WNoFuel s1 => set_nofuel s1
   end.
 
-(* addSlotToEntry *)
-Definition add_slot (pos f i : Z) (h : hdr) (s : rst) : rst :=
+(* addSlotToEntry, in four pieces: chainSlots; the common tail (overflow check, mapSlot, early finalisation);
+   the inode branch (header.firstSlot == slotId); the whole *)
+Definition chain_slot (f i : Z) (s : rst) : rst :=
   let e := r_ent s f in
-  (* chainSlots *)
-  let s1 :=
-    if le_anch e then
-      let ino := la_start e in
-      let s' := set_sl s i (x_more (r_sl s i) (ls_more (r_sl s ino))) in
-      set_sl s' ino (x_more (r_sl s' ino) i)
-    else
-      set_ent (set_sl s i (x_more (r_sl s i) (la_start e))) f (e_start e i) in
+  if le_anch e then
+    let ino := la_start e in
+    let s' := set_sl s i (x_more (r_sl s i) (ls_more (r_sl s ino))) in
+    set_sl s' ino (x_more (r_sl s' ino) i)
+  else
+    set_ent (set_sl s i (x_more (r_sl s i) (la_start e))) f (e_start e i).
+
+Definition add_tail (pos f i : Z) (h : hdr) (s3 : rst) : rst :=
+  let e3 := r_ent s3 f in
+  let total := la_swapsz e3 in
+  if (0 <? total) && (total <? le_size e3) then free_bad_entry f s3 else
+  let s4 := set_sl s3 i (x_map (r_sl s3 i) (h_psz h) (h_next h)) in     (* mapSlot *)
+  if (0 <? total) && (le_size e3 =? total) then finalize_or_free pos f s4 else s4.
+
+Definition add_inode (pos f i : Z) (h : hdr) (s2 : rst) : rst :=
+  let e2 := r_ent s2 f in
+  if le_anch e2 then free_bad_entry f s2                                 (* inode conflict *)
+  else
+    let e3 := e_anch e2 true in
+    match import_entry i h e3 with
+    | None => free_bad_entry f (set_ent s2 f e3)                         (* corrupted metainfo *)
+    | Some ssz =>
+      let e4 := e_swapsz e3 ssz in
+      if 0 <? h_esz h then
+        if la_swapsz e4 =? 0 then add_tail pos f i h (set_ent s2 f (e_swapsz e4 (h_esz h)))
+        else if negb (h_esz h =? la_swapsz e4) then free_bad_entry f (set_ent s2 f e4)   (* size mismatch *)
+        else add_tail pos f i h (set_ent s2 f e4)
+      else add_tail pos f i h (set_ent s2 f e4)
+    end.
+
+Definition add_slot (pos f i : Z) (h : hdr) (s : rst) : rst :=
+  let s1 := chain_slot f i s in
   let e1 := r_ent s1 f in
-  let e2 := e_size e1 (le_size e1 + h_psz h) in
-  let s2 := set_ent s1 f e2 in
-  let cont (s3 : rst) : rst :=
-    let e3 := r_ent s3 f in
-    let total := la_swapsz e3 in
-    if (0 <? total) && (total <? le_size e3) then free_bad_entry f s3 else
-    let s4 := set_sl s3 i (x_map (r_sl s3 i) (h_psz h) (h_next h)) in     (* mapSlot *)
-    if (0 <? total) && (le_size e3 =? total) then finalize_or_free pos f s4 else s4 in
-  if h_first h =? i then
-    if le_anch e2 then free_bad_entry f s2                                 (* inode conflict *)
-    else
-      let e3 := e_anch e2 true in
-      match import_entry i h e3 with
-      | None => free_bad_entry f (set_ent s2 f e3)                         (* corrupted metainfo *)
-      | Some ssz =>
-        let e4 := e_swapsz e3 ssz in
-        if 0 <? h_esz h then
-          if la_swapsz e4 =? 0 then cont (set_ent s2 f (e_swapsz e4 (h_esz h)))
-          else if negb (h_esz h =? la_swapsz e4) then free_bad_entry f (set_ent s2 f e4)   (* size mismatch *)
-          else cont (set_ent s2 f e4)
-        else cont (set_ent s2 f e4)
-      end
-  else cont s2.
+  let s2 := set_ent s1 f (e_size e1 (le_size e1 + h_psz h)) in            (* le.size += header.payloadSize *)
+  if h_first h =? i then add_inode pos f i h s2 else add_tail pos f i h s2.
 
 (* useNewSlot / startNewEntry / primeNewEntry *)
 Definition use_new_slot (pos i : Z) (h : hdr) (s : rst) : rst :=
